@@ -29,7 +29,7 @@ theorem raw_lossy : (v : PV) → RawPlain v = true → ∃ j, rawDump v = .ok j 
   | .none, _ => ⟨.null, by simp [rawDump], by simp [decode, rawNorm]⟩
   | .bool b, _ => ⟨.bool b, by simp [rawDump], by simp [decode, rawNorm]⟩
   | .int i, _ => ⟨.int i, by simp [rawDump], by simp [decode, rawNorm]⟩
-  | .flt m e, _ => ⟨.flt m e, by simp [rawDump], by simp [decode, rawNorm]⟩
+  | .flt f, _ => ⟨.flt f, by simp [rawDump], by simp [decode, rawNorm]⟩
   | .str s, _ => ⟨.str s, by simp [rawDump], by simp [decode, rawNorm]⟩
   | .list xs, h => by
     simp only [RawPlain] at h
@@ -97,7 +97,7 @@ theorem lossy : (v : PV) → Decodable v = true → ∃ j, encode v = .ok j ∧ 
   | .none, _ => ⟨.null, by simp [encode], by simp [decode, norm]⟩
   | .bool b, _ => ⟨.bool b, by simp [encode], by simp [decode, norm]⟩
   | .int i, _ => ⟨.int i, by simp [encode], by simp [decode, norm]⟩
-  | .flt m e, _ => ⟨.flt m e, by simp [encode], by simp [decode, norm]⟩
+  | .flt f, _ => ⟨.flt f, by simp [encode], by simp [decode, norm]⟩
   | .str s, _ => ⟨.str s, by simp [encode], by simp [decode, norm]⟩
   | .partialFn, _ => ⟨.null, by simp [encode], by simp [decode, norm]⟩
   | .list xs, h => by
@@ -227,7 +227,7 @@ theorem normKey_str {k : Key} (h : k.isStr = true) : normKey k = k := by
 
 mutual
 theorem rawNorm_id : (v : PV) → RawOk v = true → rawNorm v = v
-  | .none, _ | .bool _, _ | .int _, _ | .flt _ _, _ | .str _, _ => by simp [rawNorm]
+  | .none, _ | .bool _, _ | .int _, _ | .flt _, _ | .str _, _ => by simp [rawNorm]
   | .list xs, h => by simp only [RawOk] at h; simp [rawNorm, rawNormList_id xs h]
   | .dict kvs, h => by simp only [RawOk] at h; simp [rawNorm, rawNormKvs_id kvs h]
   | .tuple _, h | .set _, h | .deque _, h | .data _ _, h | .railsConfig _, h | .specType _, h | .enum _ _, h
@@ -247,7 +247,7 @@ end
 
 mutual
 theorem norm_id : (v : PV) → Encodable v = true → norm v = v
-  | .none, _ | .bool _, _ | .int _, _ | .flt _ _, _ | .str _, _ | .datetime _, _ | .specType _, _ | .enum _ _, _
+  | .none, _ | .bool _, _ | .int _, _ | .flt _, _ | .str _, _ | .datetime _, _ | .specType _, _ | .enum _ _, _
   | .regex _ _, _ => by
     simp [norm]
   | .list xs, h => by simp only [Encodable] at h; simp [norm, normList_id xs h]
